@@ -167,6 +167,20 @@ def check_conc(prop, tier):
         if prop == "C14":
             drift += uuid_part(res, work, tier, rng)
         if drift and not res.violations:
+            # ESCALATION: enumerate many more schedules of the real code on the drifting scenarios
+            dsc = sorted({d["sc"] for d in s2["drifts"]})[:12]
+            esc = []
+            for i in dsc:
+                base = dict(hs2[i])
+                esc.append(dict(base, sched={"mode": "dfs", "pb": 3, "max": 600}))
+                esc.append(dict(base, sched={"mode": "pct", "seed": seed() * 31 + i, "runs": 150, "d": 4}))
+            if not esc:
+                esc = [dict(hs2[i], sched={"mode": "pct", "seed": seed() * 37 + i, "runs": 40, "d": 4}) for i in range(0, len(hs2), 2)][:40]
+            h3 = run_harness("level", esc, work, "esc", timeout=3000)
+            s3 = tv(h3["trace"], "MCTraceLevel", "TraceLevel", work, timeout=6000)
+            res.add(escalation_executions=s3["execs"], traces_validated_against_impl=s3["execs"], events_validated=s3["lines"])
+            classify_tv(res, s3, CONC_MON[prop], KF_OF.get(prop, set()), lambda i: esc[i], "escalation after drift", trace=h3["trace"])
+        if drift and not res.violations:
             for d in (s["drifts"] + s2["drifts"])[:3]:
                 print("DRIFT property=%s line=%d scenario=%d run=%d (step not explained by the model; monitors hold)" % (prop, d["line"], d["sc"], d["run"]))
             if mism:
@@ -323,6 +337,22 @@ def check_seq(prop, tier):
         classify_tv(res, s2, SEQ_MON[prop], KF_OF.get(prop, set()), lambda i: hs2[i], "recorded history", spec="seq")
         res.sample({"random_history": hs2[0]["threads"][0][:12]})
         drift = len(s["drifts"]) + len(s2["drifts"]) + mism
+        if drift and not res.violations:
+            # ESCALATION: some call is not predicted by the model although the property's predicate holds.
+            # Continue the drifting histories from the point of divergence with many random continuations
+            # over a small id set (the consequence of a divergence usually shows a few calls later).
+            esc = []
+            for src, summ in ((hs, s), (hs2, s2)):
+                for d in summ["drifts"][:40]:
+                    calls = src[d["sc"]]["threads"][0]
+                    for cut in (len(calls), max(1, len(calls) // 2)):
+                        for _ in range(10):
+                            esc.append(scen.seq_scenario(calls[:cut] + scen.seq_history(rng, rng.range(5, 14), nids=3, monotone_ts=True, zero_ok=True)))
+            if esc:
+                h3 = run_harness("level", esc, work, "esc", timeout=3000)
+                s3 = tv(h3["trace"], "MCTraceSeq", "TraceSeq", work, timeout=6000)
+                res.add(escalation_histories=len(esc), traces_validated_against_impl=s3["execs"], calls_validated=s3["calls"])
+                classify_tv(res, s3, SEQ_MON[prop], KF_OF.get(prop, set()), lambda i: esc[i], "escalation after drift", spec="seq")
         if drift and not res.violations:
             for d in (s["drifts"] + s2["drifts"])[:3]:
                 print("DRIFT property=%s line=%d scenario=%d (call result/state not predicted by the model; the property's own monitor holds)" % (prop, d["line"], d["sc"]))
